@@ -16,8 +16,8 @@ Qed.
 
 Lemma vreq_ok_spec r : vreq_errors r = 0%nat <-> vreq_ok r = true.
 Proof.
-  unfold vreq_errors, vreq_ok. destruct (vr_keyok r); cbn [negb b2n andb].
-  - destruct (vr_op r) as [[]|]; destruct (vr_nvals r) as [|[|n]]; cbn; split; (congruence || lia).
+  unfold vreq_errors, vreq_ok. destruct (vr_keyerrs r) as [|k]; cbn [Nat.eqb andb].
+  - rewrite Nat.add_0_r. destruct (vr_op r) as [[]|]; destruct (vr_nvals r) as [|[|n]]; cbn; split; (congruence || lia).
   - split; [lia|discriminate].
 Qed.
 
